@@ -219,6 +219,7 @@ _skip_safe(DecoratorMachine)
 # ----------------------------------------------------------------------------- (ii) real analysis objects
 METHODS = {
     'Transitions': [('matrix', [()]), ('states_next', [()]), ('states_prev', [()])],
+    'JumpsShared': [('matrix', [()]), ('counter', [()]), ('jump_diffusivity', [(3,)]), ('_counter', [()])],
     'Jumps': [('matrix', [()]), ('counter', [()]), ('_counter', [()]), ('jump_diffusivity', [(1,), (2,), (3,)]), ('collective', [(), (2.5,)]), ('rates', [(1,), (2,)]),
               ('to_graph', [(), (-0.3, 0.4)]), ('activation_energies', [(1,), (2,)])],
     'TrajectoryMetrics': [('speed', [()]), ('particle_density', [()]), ('mol_per_liter', [()]), ('tracer_diffusivity', [{'dimensions': 1}, {'dimensions': 3}]),
@@ -232,6 +233,7 @@ METHODS = {
 class RealMachine(LogMachine):
     def setup(self):
         self.systems = []
+        self.shared = {}
         self.live = {}
         self.next = 0
         self.dead_ids = set()
@@ -251,6 +253,15 @@ class RealMachine(LogMachine):
         tr = gcall(traj.transitions_between_sites, sitesys.sites(case), 'Li', site_radius=sitesys.radius_arg(case), site_inner_fraction=case['inner_fraction'])
         if kind == 'Transitions':
             return tr
+        if kind == 'JumpsShared':
+            # several Jumps objects with different settings over ONE shared Transitions object
+            key = k % len(self.systems)
+            if key not in self.shared:
+                self.shared[key] = tr
+            j = gcall(Jumps, self.shared[key], minimal_residence=[0, 2, 5][(k // len(self.systems)) % 3], allow=(ValueError,))
+            if isinstance(j, Raised):
+                raise Skip()
+            return j
         j = gcall(Jumps, tr, allow=(ValueError,))
         if isinstance(j, Raised):
             raise Skip()
@@ -361,7 +372,7 @@ class RealMachine(LogMachine):
                 ok.append(c)
         self.step({'op': 'init', 'systems': ok})
 
-    @rule(k=st.integers(0, 5), kind=st.sampled_from(['Transitions', 'Jumps', 'Jumps', 'TrajectoryMetrics', 'Collective', 'Trajectory']))
+    @rule(k=st.integers(0, 8), kind=st.sampled_from(['Transitions', 'Jumps', 'Jumps', 'JumpsShared', 'JumpsShared', 'TrajectoryMetrics', 'Collective', 'Trajectory']))
     def r_new(self, k, kind):
         self.step({'op': 'new', 'k': k, 'kind': kind})
 
